@@ -1,14 +1,18 @@
 /-
-  `copy<T>` (CopyFrom on structs, oneofs, arrays and multimaps) preserves the invariant, for schemas
-  WITHOUT dictionary structs (`Ctx.NoDict`). The generated copy code is a composition of the same
-  elementary steps as the public setters (presence change, primitive assignment, EnsureLen, SetType,
-  recursive copy into a child); `Pres.trans` composes them, the child copies are the induction
-  hypothesis (well-founded recursion on the size of the SOURCE, which is how `copy0` recurses).
-  With dictionary structs the destination child may be shared/frozen and is replaced (`unshare`,
-  `canBeShared`): that needs the functional correctness of the copy inside a dictionary struct and is
-  not proved here (the model of those paths is tied to the code by the differential check only).
+  `copy<T>` (CopyFrom on structs, oneofs, arrays and multimaps) preserves the invariant, for EVERY schema
+  (dictionary structs included). The generated copy code is a composition of the same elementary steps
+  as the public setters (presence change, primitive assignment, EnsureLen, SetType, recursive copy into a
+  child); `Pres.trans` composes them, the child copies are the induction hypothesis (well-founded
+  recursion on the size of the SOURCE, which is how `copy0` recurses).
+  Dictionary structs: a shared (frozen) source is assigned by reference (the field is marked); an owned
+  destination child is an ordinary copy destination - its marks are up-closed (`UC`), so a change inside
+  it reaches the parent; a shared destination child is replaced by an owned copy without marks first
+  (`unshare`, `unshare_pres`: the copy compares equal to the shared value - checked by the model - hence
+  shows the same reader value; it is the result of a copy into a new value, hence up-closed, hence
+  without marks after `setUnmodifiedRecursively`).
 -/
-import Stef.Proofs.ApiPath
+import Stef.Proofs.ApiLeaf
+import Stef.Proofs.ApiVis
 namespace Stef.Api
 open Stef Stef.Spec Stef.SpecEnc
 set_option linter.unusedVariables false
@@ -18,31 +22,281 @@ theorem join_eq_no (u1 u2 : Up) (h : u1.join u2 = .no) : u1 = .no ∧ u2 = .no :
   cases u1 <;> cases u2 <;> simp [Up.join] at h ⊢
 
 theorem Pres.trans (C : Ctx) (a b c : AS) (u1 u2 : Up) (h1 : Pres C a b u1) (h2 : Pres C b c u2) : Pres C a c (u1.join u2) := by
-  refine ⟨fun R h => h2.snd R (h1.snd R h), fun hq hu => ?_, by rw [h2.kind, h1.kind]⟩
+  refine ⟨fun ℓ R h => h2.snd ℓ R (h1.snd ℓ R h), fun hq hu => ?_, by rw [h2.kind, h1.kind]⟩
   obtain ⟨e1, e2⟩ := join_eq_no u1 u2 hu
   obtain ⟨q1, s1⟩ := h1.sync hq e1
   obtain ⟨q2, s2⟩ := h2.sync q1 e2
   exact ⟨q2, fun r hr => s2 r (s1 r hr)⟩
 
-theorem canBeShared_false (C : Ctx) (hnd : ∀ n, C.isDictName n = false) (a : AS) : C.canBeShared a = false := by
-  cases a <;> simp [Ctx.canBeShared, hnd]
-
 theorem join_no_right (u : Up) : u.join .no = u := by cases u <;> rfl
 theorem join_no_left (u : Up) : Up.no.join u = u := by cases u <;> rfl
 
-/-- the value part of one field of `copy<Struct>` (no dictionary structs): unchanged, the copy into the
-    current value, or (nil pointer) the copy into a new, fully marked value with the field marked -/
-theorem copyFieldValue_cases (E : CopyEnv) (hnd : ∀ n, E.C.isDictName n = false) (fd : Field) (idx : Nat) (sHas gone : Bool)
+/-! ## a new value has no marks; `reset()` keeps marks up-closed -/
+
+def fieldA (C : Ctx) (fuel : Nat) (fd : Field) : AS :=
+  if isPrimTy fd.ty then initAS C fuel fd.ty
+  else if C.isPtrTy fd.ty && fd.optional then .nil
+  else initAS C fuel fd.ty
+
+theorem fieldA_req (C : Ctx) (fuel : Nat) (fd : Field) (h : fd.optional = false) : fieldA C fuel fd = initAS C fuel fd.ty := by
+  unfold fieldA; simp [h]
+
+theorem init_fields_uc (C : Ctx) (fuel : Nat) (ih : ∀ ty, Quiet C (initAS C fuel ty) ∧ UC C (initAS C fuel ty)) :
+    ∀ (fds : List Field) (idx oi : Nat) (known : Bool) (rp : Nat) (rfs : List St),
+      QuietFields C fds oi 0 (fds.map (fieldA C fuel)) ∧
+      SndFieldsG C true fds idx oi 0 0 known rp (fds.map (fieldA C fuel)) rfs
+  | [], _, _, _, _, _ => by simp [QuietFields, SndFieldsG]
+  | fd :: fds, idx, oi, known, rp, rfs => by
+    simp only [List.map_cons, QuietFields, SndFieldsG, List.tail_cons, fdOpt_cons, Nat.zero_testBit, Bool.or_false,
+      Bool.not_eq_true', Bool.not_eq_false']
+    obtain ⟨g1, g2⟩ := init_fields_uc C fuel ih fds (idx + 1) (if fd.optional = true then oi + 1 else oi) known rp rfs.tail
+    have huc : UC C (fieldA C fuel fd) := by
+      unfold fieldA
+      split
+      · exact (ih _).2
+      · split
+        · simp [UC, SndG]
+        · exact (ih _).2
+    refine ⟨⟨fun hp => ?_, g1⟩, fun hp => ⟨fun h0 => by simp at h0, fun _ => ⟨Or.inl trivial, ?_, huc⟩⟩, fun _ => huc, g2⟩
+    · rw [fieldA_req C fuel fd hp]; exact (ih fd.ty).1
+    · rw [fieldA_req C fuel fd hp]; exact (ih fd.ty).1
+
+theorem initAS_quiet_uc (C : Ctx) : ∀ (fuel : Nat) (ty : Ty), Quiet C (initAS C fuel ty) ∧ UC C (initAS C fuel ty)
+  | 0, ty => by simp [initAS, Quiet, UC, SndG]
+  | fuel + 1, .prim p d => by simp [initAS, Quiet, UC, SndG]
+  | fuel + 1, .arr e => by simp [initAS, Quiet, UC, SndG, QuietElems, SndElemsG]
+  | fuel + 1, .ref n => by
+    simp only [initAS]
+    cases hf : C.σ.find n with
+    | none => simp [Quiet, UC, SndG]
+    | some d =>
+      cases d with
+      | struct dn fs =>
+        simp only
+        have hfo : fieldsOf C n = fs := by simp [fieldsOf, hf]
+        obtain ⟨g1, g2⟩ := init_fields_uc C fuel (initAS_quiet_uc C fuel) fs 0 0 false 0 []
+        constructor
+        · simp only [Quiet, hfo]
+          exact Or.inr ⟨trivial, g1⟩
+        · simp only [UC, SndG, hfo]
+          by_cases hd : C.isDictName n = true
+          · exact Or.inl ⟨hd, Or.inr g2⟩
+          · exact Or.inr ⟨by simpa using hd, g2⟩
+      | oneof fs => simp [Quiet, UC, SndG]
+      | mmap k v => simp [Quiet, UC, SndG]
+
+theorem uc_init (C : Ctx) (ty : Ty) : UC C (C.init ty) := (initAS_quiet_uc C _ ty).2
+theorem quiet_init (C : Ctx) (ty : Ty) : Quiet C (C.init ty) := (initAS_quiet_uc C _ ty).1
+
+theorem uc_shared (C : Ctx) (a : AS) (h : C.canBeShared a = true) : UC C a := anySnd_shared C a h true none
+
+/-- one field of `reset()` -/
+def resetElem (C : Ctx) (fds : List Field) (a : AS) : AS :=
+  match a with
+  | .prim v => .prim (primZero v)
+  | .nil => .nil
+  | a => if (fds.head?.map (fun fd => C.isDictTy fd.ty)).getD false
+         then C.emptyOf ((fds.head?.map (·.ty)).getD (.prim .bool none)) else resetAS C a
+
+theorem resetFields_cons (C : Ctx) (fds : List Field) (a : AS) (as : List AS) :
+    resetFields C fds (a :: as) = resetElem C fds a :: resetFields C fds.tail as := by
+  cases a <;> simp only [resetFields, resetElem]
+
+theorem resetElem_good (C : Ctx) (fds : List Field) (a : AS) (huc : UC C a)
+    (ih1 : UC C a → UC C (resetAS C a)) (ih2 : Quiet C a → Quiet C (resetAS C a)) :
+    UC C (resetElem C fds a) ∧ (Quiet C a → Quiet C (resetElem C fds a)) := by
+  have hdt : (fds.head?.map (fun fd => C.isDictTy fd.ty)).getD false = true →
+      C.isDictTy ((fds.head?.map (·.ty)).getD (.prim .bool none)) = true := by
+    intro hdt
+    cases fds with
+    | nil => simp at hdt
+    | cons fd fds => simpa using hdt
+  have gen : UC C (if (fds.head?.map (fun fd => C.isDictTy fd.ty)).getD false
+         then C.emptyOf ((fds.head?.map (·.ty)).getD (.prim .bool none)) else resetAS C a) ∧
+      (Quiet C a → Quiet C (if (fds.head?.map (fun fd => C.isDictTy fd.ty)).getD false
+         then C.emptyOf ((fds.head?.map (·.ty)).getD (.prim .bool none)) else resetAS C a)) := by
+    split
+    · rename_i h1
+      exact ⟨uc_shared C _ (canBeShared_emptyOf C _ (hdt h1)), fun _ => quiet_shared C _ (canBeShared_emptyOf C _ (hdt h1))⟩
+    · exact ⟨ih1 huc, ih2⟩
+  cases a with
+  | prim v => simp [resetElem, UC, SndG, Quiet]
+  | nil => simp [resetElem, UC, SndG, Quiet]
+  | struct n m' p' fr fs => exact gen
+  | oneof n t as' => exact gen
+  | arr e es hid => exact gen
+  | mmap n ps hid k v ml => exact gen
+
+mutual
+theorem quiet_resetAS (C : Ctx) : ∀ (a : AS), Quiet C a → Quiet C (resetAS C a)
+  | .prim _, _ => by simp [resetAS, Quiet]
+  | .nil, _ => by simp [resetAS, Quiet]
+  | .struct n m p fr fs, h => by
+    simp only [resetAS, Quiet] at h ⊢
+    rcases h with h | ⟨hm, h⟩
+    · exact Or.inl h
+    · exact Or.inr ⟨hm, quietFields_reset C (fieldsOf C n) 0 p fs h⟩
+  | .oneof n t as, _ => by simp [resetAS, Quiet]
+  | .arr e es hid, _ => by simp [resetAS, Quiet, QuietElems]
+  | .mmap n ps hid k v ml, _ => by simp [resetAS, Quiet]
+theorem quietFields_reset (C : Ctx) : ∀ (fds : List Field) (oi p : Nat) (as : List AS), QuietFields C fds oi p as →
+    QuietFields C fds oi 0 (resetFields C fds as)
+  | _, _, _, [], _ => by simp [resetFields, QuietFields]
+  | fds, oi, p, a :: as, h => by
+    rw [resetFields_cons]
+    simp only [QuietFields] at h ⊢
+    refine ⟨fun hp => ?_, quietFields_reset C fds.tail _ p as h.2⟩
+    have hno : fdOpt fds = false := by simpa using hp
+    have hq : Quiet C a := h.1 (by simp [hno])
+    -- (the up-closed part of `resetElem_good` is not needed here)
+    unfold resetElem
+    cases a with
+    | prim v => simp [Quiet]
+    | nil => simp [Quiet]
+    | struct n m p' fr fs =>
+      simp only
+      split
+      · rename_i hdt
+        refine quiet_shared C _ (canBeShared_emptyOf C _ ?_)
+        cases fds with
+        | nil => simp at hdt
+        | cons fd fds => simpa using hdt
+      · exact quiet_resetAS C _ hq
+    | oneof n t as' =>
+      simp only
+      split
+      · rename_i hdt
+        refine quiet_shared C _ (canBeShared_emptyOf C _ ?_)
+        cases fds with
+        | nil => simp at hdt
+        | cons fd fds => simpa using hdt
+      · exact quiet_resetAS C _ hq
+    | arr e es hid =>
+      simp only
+      split
+      · rename_i hdt
+        refine quiet_shared C _ (canBeShared_emptyOf C _ ?_)
+        cases fds with
+        | nil => simp at hdt
+        | cons fd fds => simpa using hdt
+      · exact quiet_resetAS C _ hq
+    | mmap n ps hid k v ml =>
+      simp only
+      split
+      · rename_i hdt
+        refine quiet_shared C _ (canBeShared_emptyOf C _ ?_)
+        cases fds with
+        | nil => simp at hdt
+        | cons fd fds => simpa using hdt
+      · exact quiet_resetAS C _ hq
+end
+
+mutual
+theorem uc_resetAS (C : Ctx) : ∀ (a : AS), UC C a → UC C (resetAS C a)
+  | .prim _, _ => by simp [resetAS, UC, SndG]
+  | .nil, _ => by simp [resetAS, UC, SndG]
+  | .struct n m p fr fs, h => by
+    simp only [resetAS, UC, SndG] at h ⊢
+    rcases h with ⟨hd, hfr | h⟩ | ⟨hd, h⟩
+    · exact Or.inl ⟨hd, Or.inl hfr⟩
+    · exact Or.inl ⟨hd, Or.inr (ucFields_reset C (fieldsOf C n) 0 0 m p fs _ _ _ _ _ _ h)⟩
+    · exact Or.inr ⟨hd, ucFields_reset C (fieldsOf C n) 0 0 m p fs _ _ _ _ _ _ h⟩
+  | .oneof n t as, _ => by simp [resetAS, UC, SndG]
+  | .arr e es hid, _ => by simp [resetAS, UC, SndG, SndElemsG]
+  | .mmap n ps hid k v ml, _ => by simp [resetAS, UC, SndG]
+theorem ucFields_reset (C : Ctx) : ∀ (fds : List Field) (idx oi m p : Nat) (as : List AS) (known : Bool) (rp : Nat)
+    (rfs : List St) (known' : Bool) (rp' : Nat) (rfs' : List St), SndFieldsG C true fds idx oi m p known rp as rfs →
+    SndFieldsG C true fds idx oi m 0 known' rp' (resetFields C fds as) rfs'
+  | _, _, _, _, _, [], _, _, _, _, _, _, _ => by simp [resetFields, SndFieldsG]
+  | fds, idx, oi, m, p, a :: as, known, rp, rfs, known', rp', rfs', h => by
+    have huc := sndFields_uc_head C true fds idx oi m p known rp a as rfs h
+    rw [resetFields_cons]
+    simp only [SndFieldsG] at h ⊢
+    have ih := ucFields_reset C fds.tail (idx + 1) (if fdOpt fds then oi + 1 else oi) m p as known rp rfs.tail known' rp' rfs'.tail h.2.2
+    have key := resetElem_good C fds a huc (uc_resetAS C a) (quiet_resetAS C a)
+    refine ⟨fun hp => ?_, fun _ => key.1, ih⟩
+    have hno : fdOpt fds = false := by simpa using hp
+    have hpo : (!fdOpt fds || p.testBit oi) = true := by simp [hno]
+    exact ⟨fun _ => snd_lax C true _ _ _ key.1, fun hm => ⟨Or.inl trivial, key.2 ((h.1 hpo).2 hm).2.1, key.1⟩⟩
+end
+
+/-! ## `unshare` -/
+
+theorem isPrimAS_setModRec (a : AS) : isPrimAS (setModRec a) = isPrimAS a := by cases a <;> rfl
+theorem isPrimAS_setUnmodRec (a : AS) : isPrimAS (setUnmodRec a) = isPrimAS a := by cases a <;> rfl
+
+theorem isPrimAS_init_ptr (C : Ctx) (ty : Ty) (h : C.isPtrTy ty = true) : isPrimAS (C.init ty) = false := by
+  cases ty with
+  | prim p d => simp [Ctx.isPtrTy] at h
+  | arr e => simp [Ctx.isPtrTy] at h
+  | ref n =>
+    unfold Ctx.init initFuelA
+    simp only [initAS]
+    split <;> rfl
+
+theorem isPtrTy_of_isDictTy (C : Ctx) (ty : Ty) (h : C.isDictTy ty = true) : C.isPtrTy ty = true := by
+  cases ty with
+  | prim p d => simp [Ctx.isDictTy] at h
+  | arr e => simp [Ctx.isDictTy] at h
+  | ref n =>
+    simp only [Ctx.isDictTy, Ctx.isDictName] at h
+    simp only [Ctx.isPtrTy]
+    split at h
+    · rename_i dn fs hfind
+      rw [hfind]; simp
+    · simp at h
+
+theorem isPrimAS_shared (C : Ctx) (a : AS) (h : C.canBeShared a = true) : isPrimAS a = false := by
+  cases a <;> simp [Ctx.canBeShared] at h <;> rfl
+
+theorem isDictNode_of_eqv (C : Ctx) (a b : AS) (he : eqv C a b = true) (ha : C.isDictNode a = true) : C.isDictNode b = true := by
+  cases a with
+  | struct n m p fr fs =>
+    cases b with
+    | struct n' m' p' fr' fs' =>
+      simp only [eqv, Bool.and_eq_true, beq_iff_eq] at he
+      obtain ⟨⟨rfl, _⟩, _⟩ := he
+      exact ha
+    | _ => simp [eqv] at he
+  | _ => simp [Ctx.isDictNode] at ha
+
+/-- a shared destination child replaced by an owned copy: sound whatever the reader holds; when the
+    parent is not told, the copy has no marks and shows what the shared value showed -/
+theorem unshare_pres (C : Ctx) (cp : AS → AS → AS × Up) (hcp : ∀ dst src, Pres C dst (cp dst src).1 (cp dst src).2)
+    (ty : Ty) (sh : AS) (hptr : C.isPtrTy ty = true) (hsh : C.canBeShared sh = true) :
+    Pres C sh (unshareWith C cp ty sh).1 (unshareWith C cp ty sh).2 := by
+  unfold unshareWith
+  have hk : isPrimAS (cp (C.init ty) sh).1 = false := by
+    rw [(hcp _ _).kind]; exact isPrimAS_init_ptr C ty hptr
+  by_cases he : eqv C sh (setUnmodRec (cp (C.init ty) sh).1) = true
+  · simp only [he, if_true]
+    have hucr : UC C (cp (C.init ty) sh).1 := (hcp _ _).snd true none (uc_init C ty)
+    have hq := quiet_setUnmodRec C _ none hucr
+    have hdict := isDictNode_of_eqv C sh _ he (isDictNode_of_canBeShared C sh hsh)
+    refine ⟨fun ℓ R _ => anySnd_dict C _ hdict hq.2 ℓ R, fun _ _ => ⟨hq.1, fun r hs => shows_of_eqv C sh _ r he hs⟩, ?_⟩
+    rw [isPrimAS_setUnmodRec, hk, isPrimAS_shared C sh hsh]
+  · simp only [he, Bool.false_eq_true, if_false]
+    refine ⟨fun ℓ R _ => anySnd_setModRec C _ ℓ R, fun _ h => by simp at h, ?_⟩
+    rw [isPrimAS_setModRec, hk, isPrimAS_shared C sh hsh]
+
+/-- what the copy of a struct needs of `E.unshare` -/
+def UnshareOk (E : CopyEnv) : Prop :=
+  ∀ ty sh, E.C.isPtrTy ty = true → E.C.canBeShared sh = true → Pres E.C sh (E.unshare ty sh).1 (E.unshare ty sh).2
+
+/-! ## structs -/
+
+/-- the value part of one field of `copy<Struct>`: unchanged; a shared source assigned by reference with
+    the field marked; or the copy into a value `o` that the current one was replaced by first (itself,
+    a new fully marked value for a nil pointer, the unshared copy of a shared value) -/
+theorem copyFieldValue_cases (E : CopyEnv) (hun : UnshareOk E) (fd : Field) (idx : Nat) (sHas gone : Bool)
     (d1 s : AS) (m1 p1 : Nat) (u1 : Up) (cp : AS → AS × Up) (hgs : gone = true → sHas = false ∧ fd.optional = true) :
     copyFieldValue E fd idx sHas gone d1 s m1 p1 u1 cp = (d1, m1, p1, u1) ∨
-    gone = false ∧ copyFieldValue E fd idx sHas gone d1 s m1 p1 u1 cp =
-      ((cp d1).1, (structRecv m1 idx (cp d1).2).1, p1, u1.join (structRecv m1 idx (cp d1).2).2) ∨
-    (∃ y, AnySnd E.C y ∧ gone = false ∧ copyFieldValue E fd idx sHas gone d1 s m1 p1 u1 cp =
-      ((cp y).1, (structRecv (structRecv m1 idx .direct).1 idx (cp y).2).1, p1,
-      (u1.join (structRecv m1 idx .direct).2).join (structRecv (structRecv m1 idx .direct).1 idx (cp y).2).2)) := by
-  have hcs : ∀ a, E.C.canBeShared a = false := canBeShared_false E.C hnd
+    (gone = false ∧ E.C.canBeShared s = true ∧ copyFieldValue E fd idx sHas gone d1 s m1 p1 u1 cp =
+      (s, (structRecv m1 idx .direct).1, p1, u1.join (structRecv m1 idx .direct).2)) ∨
+    (∃ o uo, Pres E.C d1 o uo ∧ gone = false ∧ copyFieldValue E fd idx sHas gone d1 s m1 p1 u1 cp =
+      ((cp o).1, (structRecv (structRecv m1 idx uo).1 idx (cp o).2).1, p1,
+      (u1.join (structRecv m1 idx uo).2).join (structRecv (structRecv m1 idx uo).1 idx (cp o).2).2)) := by
   unfold copyFieldValue
-  simp only [hcs, Bool.false_eq_true, if_false]
   by_cases hptr : E.C.isPtrTy fd.ty = true
   · simp only [hptr, if_true]
     generalize hcond : (if fd.optional = true then (match s with | .nil => false | _ => true) && sHas else true) = srcOk
@@ -55,9 +309,36 @@ theorem copyFieldValue_cases (E : CopyEnv) (hnd : ∀ n, E.C.isDictName n = fals
         | true =>
           obtain ⟨h1, h2⟩ := hgs hgg
           simp [h1, h2] at hcond
-      cases d1 with
-      | nil => right; right; exact ⟨_, anySnd_setModRec _ _, hg, rfl⟩
-      | _ => right; left; exact ⟨hg, rfl⟩
+      by_cases hss : E.C.canBeShared s = true
+      · simp only [hss, if_true]
+        split
+        · right; left; exact ⟨hg, trivial, rfl⟩
+        · left; rfl
+      · simp only [hss, Bool.false_eq_true, if_false]
+        right; right
+        cases d1 with
+        | nil =>
+          refine ⟨setModRec (E.C.init fd.ty), .direct, pres_direct E.C _ _ ?_ (anySnd_setModRec _ _), hg, rfl⟩
+          rw [isPrimAS_setModRec, isPrimAS_init_ptr E.C fd.ty hptr]; rfl
+        | prim v =>
+          refine ⟨.prim v, .no, Pres.refl _ _ _, hg, ?_⟩
+          simp [Ctx.canBeShared, structRecv_no, join_no_right]
+        | struct n m p fr fs =>
+          by_cases hds : E.C.canBeShared (.struct n m p fr fs) = true
+          · simp only [hds, if_true]
+            exact ⟨_, _, hun fd.ty _ hptr hds, hg, rfl⟩
+          · simp only [hds, Bool.false_eq_true, if_false]
+            refine ⟨_, .no, Pres.refl _ _ _, hg, ?_⟩
+            simp [structRecv_no, join_no_right]
+        | oneof n t as =>
+          refine ⟨_, .no, Pres.refl _ _ _, hg, ?_⟩
+          simp [Ctx.canBeShared, structRecv_no, join_no_right]
+        | arr e es hid =>
+          refine ⟨_, .no, Pres.refl _ _ _, hg, ?_⟩
+          simp [Ctx.canBeShared, structRecv_no, join_no_right]
+        | mmap n ps hid k v ml =>
+          refine ⟨_, .no, Pres.refl _ _ _, hg, ?_⟩
+          simp [Ctx.canBeShared, structRecv_no, join_no_right]
     | false =>
       simp only [Bool.false_eq_true, if_false]
       left; trivial
@@ -65,11 +346,15 @@ theorem copyFieldValue_cases (E : CopyEnv) (hnd : ∀ n, E.C.isDictName n = fals
     by_cases hg : gone = true
     · simp only [hg, if_true]; left; trivial
     · simp only [hg, Bool.false_eq_true, if_false]
-      right; left
-      exact ⟨by simp [hg], trivial⟩
+      right; right
+      exact ⟨d1, .no, Pres.refl _ _ _, by simp [hg], by simp [structRecv_no, join_no_right]⟩
 
-/-- one field of `copy<Struct>` as an operation on the destination struct (no dictionary structs) -/
-theorem copyFieldStep_pres (E : CopyEnv) (hnd : ∀ n, E.C.isDictName n = false) (n : String) (m p : Nat) (fr : Bool)
+theorem set_set {α} (l : List α) (i : Nat) (a b : α) : (l.set i a).set i b = l.set i b := by
+  simp [List.set_set]
+
+/-- one field of `copy<Struct>` as an operation on the destination struct -/
+theorem copyFieldStep_pres (E : CopyEnv) (hun : UnshareOk E) (n : String) (m p : Nat) (fr : Bool)
+    (hns : ¬ (E.C.isDictName n = true ∧ fr = true))
     (dfs : List AS) (idx : Nat) (d s : AS) (fd : Field) (sp : Nat) (cp : AS → AS × Up)
     (hfd : (fieldsOf E.C n)[idx]? = some fd) (hd : dfs[idx]? = some d)
     (hcp : ∀ x, Pres E.C x (cp x).1 (cp x).2) :
@@ -79,7 +364,6 @@ theorem copyFieldStep_pres (E : CopyEnv) (hnd : ∀ n, E.C.isDictName n = false)
         (dfs.set idx (copyFieldStep E fd idx (optIndex (fieldsOf E.C n) idx) sp d s m p cp).1))
       (copyFieldStep E fd idx (optIndex (fieldsOf E.C n) idx) sp d s m p cp).2.2.2 := by
   have hopt := fdOpt_drop _ idx fd hfd
-  have hndn : E.C.isDictName n = false := hnd n
   generalize hoi : optIndex (fieldsOf E.C n) idx = oi
   have hpb_or : ∀ o, (o ≠ optIndex (fieldsOf E.C n) idx ∨ fdOpt ((fieldsOf E.C n).drop idx) = false) →
       (if fd.optional = true then p ||| 2 ^ oi else p).testBit o = p.testBit o := by
@@ -107,6 +391,12 @@ theorem copyFieldStep_pres (E : CopyEnv) (hnd : ∀ n, E.C.isDictName n = false)
   have hMset : (structRecv m idx .direct).1.testBit idx = true := structRecv_set m idx .direct (by simp)
   have hagain : ∀ u, structRecv (structRecv m idx .direct).1 idx u = ((structRecv m idx .direct).1, .no) :=
     fun u => structRecv_again _ idx u hMset
+  -- marking the field and putting a value that is sound whatever the reader holds
+  have hmark : ∀ (p' : Nat) (c' : AS),
+      (∀ o, (o ≠ optIndex (fieldsOf E.C n) idx ∨ fdOpt ((fieldsOf E.C n).drop idx) = false) → p'.testBit o = p.testBit o) →
+      AnySnd E.C c' →
+      Pres E.C (.struct n m p fr dfs) (.struct n (structRecv m idx .direct).1 p' fr (dfs.set idx c')) (structRecv m idx .direct).2 :=
+    fun p' c' hp hc => pres_struct_mark E.C n m p p' fr dfs idx d c' hd hns hp (fun _ => hc) (fun _ => hc true none)
   unfold copyFieldStep
   by_cases hprim : isPrimTy fd.ty = true
   · simp only [hprim, if_true]
@@ -115,16 +405,14 @@ theorem copyFieldStep_pres (E : CopyEnv) (hnd : ∀ n, E.C.isDictName n = false)
       by_cases hsHas : (!fd.optional || sp.testBit oi) = true
       · simp only [hsHas, if_true]
         split
-        · exact pres_struct_mark E.C n m p _ fr dfs idx (.prim dv) (.prim sv) hd hndn hpb_or (fun _ => anySnd_prim _ sv)
+        · exact hmark _ _ hpb_or (anySnd_prim _ sv)
         · exact hself
       · simp only [hsHas, Bool.false_eq_true, if_false]
         have hfo : fd.optional = true := by
           cases h : fd.optional <;> simp [h] at hsHas ⊢
         split
         · rename_i hbit
-          refine pres_struct_mark E.C n m p _ fr dfs idx (.prim dv) (.prim dv) hd hndn (hpb_xor hfo) (fun hpres => ?_)
-          rw [hopt, hfo, hoi] at hpres
-          simp [Nat.testBit_xor, Nat.testBit_two_pow, hbit] at hpres
+          exact hmark _ _ (hpb_xor hfo) (anySnd_prim _ dv)
         · exact hself
     · exact hself
   · have hprim : isPrimTy fd.ty = false := by simpa using hprim
@@ -143,26 +431,26 @@ theorem copyFieldStep_pres (E : CopyEnv) (hnd : ∀ n, E.C.isDictName n = false)
         subst hdh
         simp only [if_true, Bool.and_false, Bool.false_and]
         have hx : ∀ a, AnySnd E.C (setModRec (resetAS E.C a)) := fun a => anySnd_setModRec _ _
-        rcases copyFieldValue_cases E hnd fd idx true false _ s (structRecv m idx .direct).1 (p ||| 2 ^ oi)
-          (structRecv m idx .direct).2 cp (by simp) with h | ⟨_, h⟩ | ⟨y, hy, _, h⟩
+        rcases copyFieldValue_cases E hun fd idx true false _ s (structRecv m idx .direct).1 (p ||| 2 ^ oi)
+          (structRecv m idx .direct).2 cp (by simp) with h | ⟨_, hss, h⟩ | ⟨o, uo, ho, _, h⟩
         · rw [h]
-          exact pres_struct_mark E.C n m p _ fr dfs idx d _ hd hndn (hpb_or' hfo) (fun _ => hx _)
-        · rw [h]
-          simp only [hagain, join_no_right]
-          exact pres_struct_mark E.C n m p _ fr dfs idx d _ hd hndn (hpb_or' hfo) (fun _ R => (hcp _).snd R (hx _ R))
+          exact hmark _ _ (hpb_or' hfo) (hx _)
         · rw [h]
           simp only [hagain, join_no_right]
-          exact pres_struct_mark E.C n m p _ fr dfs idx d _ hd hndn (hpb_or' hfo) (fun _ R => (hcp _).snd R (hy R))
+          exact hmark _ _ (hpb_or' hfo) (anySnd_shared E.C s hss)
+        · rw [h]
+          simp only [hagain, join_no_right]
+          exact hmark _ _ (hpb_or' hfo) (fun ℓ R => (hcp _).snd ℓ R (ho.snd ℓ R (hx _ ℓ R)))
       | false =>
         -- present in the destination only
         have hdh : dHas = true := by cases dHas <;> simp [hfo] at hchg ⊢
         subst hdh
         simp only [Bool.false_eq_true, if_false, hfo, Bool.and_self, Bool.not_false, Bool.and_true]
         have hb : p.testBit oi = true := by simpa [hfo] using hdH
-        rcases copyFieldValue_cases E hnd fd idx false true (resetAS E.C d) s (structRecv m idx .direct).1 (p ^^^ 2 ^ oi)
-          (structRecv m idx .direct).2 cp (fun _ => ⟨rfl, hfo⟩) with h | ⟨hg, _⟩ | ⟨y, _, hg, _⟩
+        rcases copyFieldValue_cases E hun fd idx false true (resetAS E.C d) s (structRecv m idx .direct).1 (p ^^^ 2 ^ oi)
+          (structRecv m idx .direct).2 cp (fun _ => ⟨rfl, hfo⟩) with h | ⟨hg, _⟩ | ⟨_, _, _, hg, _⟩
         · rw [h]
-          refine pres_struct_mark E.C n m p _ fr dfs idx d _ hd hndn (hpb_xor hfo) (fun hpres => ?_)
+          refine pres_struct_mark E.C n m p _ fr dfs idx d _ hd hns (hpb_xor hfo) (fun hpres => ?_) (uc_resetAS E.C d)
           rw [hopt, hfo, hoi] at hpres
           simp [Nat.testBit_xor, Nat.testBit_two_pow, hb] at hpres
         · simp at hg
@@ -172,14 +460,18 @@ theorem copyFieldStep_pres (E : CopyEnv) (hnd : ∀ n, E.C.isDictName n = false)
       have hgone : (fd.optional && dHas && !sHas) = false := by
         cases h1 : fd.optional <;> cases sHas <;> cases dHas <;> simp [h1] at hchg ⊢
       rw [hgone]
-      rcases copyFieldValue_cases E hnd fd idx sHas false d s m p .no cp (by simp) with h | ⟨_, h⟩ | ⟨y, hy, _, h⟩
+      rcases copyFieldValue_cases E hun fd idx sHas false d s m p .no cp (by simp) with h | ⟨_, hss, h⟩ | ⟨o, uo, ho, _, h⟩
       · rw [h]; exact hself
       · rw [h]
         simp only [join_no_left]
-        exact pres_field E.C n m p fr dfs idx d _ _ hd (hcp d) hndn
+        exact hmark p s (fun _ _ => rfl) (anySnd_shared E.C s hss)
       · rw [h]
-        simp only [hagain, join_no_right, join_no_left]
-        exact pres_struct_mark E.C n m p p fr dfs idx d _ hd hndn (fun _ _ => rfl) (fun _ R => (hcp _).snd R (hy R))
+        simp only [join_no_left]
+        have h1 := pres_field E.C n m p fr dfs idx d o uo hd ho hns
+        have hd2 : (dfs.set idx o)[idx]? = some o := getElem?_set_self dfs idx d o hd
+        have h2 := pres_field E.C n (structRecv m idx uo).1 p fr (dfs.set idx o) idx o _ _ hd2 (hcp o) hns
+        rw [set_set] at h2
+        exact Pres.trans _ _ _ _ _ _ h1 h2
 
 theorem optIndex_step (fs : List Field) (i : Nat) (fd : Field) (h : fs[i]? = some fd) :
     optIndex fs (i + 1) = optIndex fs i + (if fd.optional then 1 else 0) := by
@@ -196,37 +488,38 @@ theorem drop_eq_cons_get {α} (l : List α) (i : Nat) (x : α) (xs : List α) (h
   · have := congrArg List.tail h
     simpa [List.tail_drop] using this
 
-theorem copyFields_pres (E : CopyEnv) (hnd : ∀ n, E.C.isDictName n = false) :
+theorem copyFields_pres (E : CopyEnv) (hun : UnshareOk E) :
     ∀ (sfs : List AS), (∀ s ∈ sfs, ∀ x, Pres E.C x (copy0 E x s).1 (copy0 E x s).2) →
     ∀ (fds : List Field) (dfs : List AS) (idx oi m p : Nat) (pre : List AS) (n : String) (fr : Bool) (sp : Nat),
+    ¬ (E.C.isDictName n = true ∧ fr = true) →
     fds = (fieldsOf E.C n).drop idx → idx = pre.length → oi = optIndex (fieldsOf E.C n) idx →
     Pres E.C (.struct n m p fr (pre ++ dfs))
       (.struct n (copyFields E fds idx oi sp dfs sfs m p).2.1 (copyFields E fds idx oi sp dfs sfs m p).2.2.1 fr
         (pre ++ (copyFields E fds idx oi sp dfs sfs m p).1))
       (copyFields E fds idx oi sp dfs sfs m p).2.2.2
-  | [], _, fds, dfs, idx, oi, m, p, pre, n, fr, sp, _, _, _ => by
+  | [], _, fds, dfs, idx, oi, m, p, pre, n, fr, sp, _, _, _, _ => by
     cases fds <;> cases dfs <;> (simp only [copyFields]; exact Pres.refl _ _ _)
-  | s :: sfs, _, [], dfs, idx, oi, m, p, pre, n, fr, sp, _, _, _ => by
+  | s :: sfs, _, [], dfs, idx, oi, m, p, pre, n, fr, sp, _, _, _, _ => by
     simp only [copyFields]; exact Pres.refl _ _ _
-  | s :: sfs, _, fd :: fds, [], idx, oi, m, p, pre, n, fr, sp, _, _, _ => by
+  | s :: sfs, _, fd :: fds, [], idx, oi, m, p, pre, n, fr, sp, _, _, _, _ => by
     simp only [copyFields]; exact Pres.refl _ _ _
-  | s :: sfs, ih, fd :: fds, d :: dfs, idx, oi, m, p, pre, n, fr, sp, hfds, hidx, hoi => by
+  | s :: sfs, ih, fd :: fds, d :: dfs, idx, oi, m, p, pre, n, fr, sp, hns, hfds, hidx, hoi => by
     simp only [copyFields]
     obtain ⟨hfd, hfds'⟩ := drop_eq_cons_get _ idx fd fds hfds.symm
     subst hoi
     have hd : (pre ++ d :: dfs)[idx]? = some d := by
       rw [hidx]; simp
-    have h1 := copyFieldStep_pres E hnd n m p fr (pre ++ d :: dfs) idx d s fd sp (fun x => copy0 E x s) hfd hd
+    have h1 := copyFieldStep_pres E hun n m p fr hns (pre ++ d :: dfs) idx d s fd sp (fun x => copy0 E x s) hfd hd
       (fun x => ih s (by simp) x)
     have hset : (pre ++ d :: dfs).set idx (copyFieldStep E fd idx (optIndex (fieldsOf E.C n) idx) sp d s m p (fun x => copy0 E x s)).1 =
         (pre ++ [(copyFieldStep E fd idx (optIndex (fieldsOf E.C n) idx) sp d s m p (fun x => copy0 E x s)).1]) ++ dfs := by
       rw [hidx]; simp
     rw [hset] at h1
-    have h2 := copyFields_pres E hnd sfs (fun s' hs' x => ih s' (by simp [hs']) x) fds dfs (idx + 1)
+    have h2 := copyFields_pres E hun sfs (fun s' hs' x => ih s' (by simp [hs']) x) fds dfs (idx + 1)
       (if fd.optional = true then optIndex (fieldsOf E.C n) idx + 1 else optIndex (fieldsOf E.C n) idx)
       (copyFieldStep E fd idx (optIndex (fieldsOf E.C n) idx) sp d s m p (fun x => copy0 E x s)).2.1
       (copyFieldStep E fd idx (optIndex (fieldsOf E.C n) idx) sp d s m p (fun x => copy0 E x s)).2.2.1
-      (pre ++ [(copyFieldStep E fd idx (optIndex (fieldsOf E.C n) idx) sp d s m p (fun x => copy0 E x s)).1]) n fr sp
+      (pre ++ [(copyFieldStep E fd idx (optIndex (fieldsOf E.C n) idx) sp d s m p (fun x => copy0 E x s)).1]) n fr sp hns
       hfds'.symm (by simp [hidx]) (by rw [optIndex_step _ idx fd hfd]; split <;> simp_all)
     have h3 := Pres.trans _ _ _ _ _ _ h1 h2
     simpa [List.append_assoc] using h3
@@ -252,10 +545,10 @@ theorem copyAlt_pres (E : CopyEnv) : ∀ (ss : List AS), (∀ s ∈ ss, ∀ x, P
     have := copyAlt_pres E ss (fun s' hs' x => ih s' (by simp [hs']) x) i ds (pre ++ [d]) n t
     simpa [List.append_assoc] using this
 
-theorem sndAlt_set_any (C : Ctx) : ∀ (i : Nat) (as : List AS) (x : AS) (R : Option St), AnySnd C x → SndAlt C i (as.set i x) R
-  | _, [], _, _, _ => by simp [SndAlt]
-  | 0, a :: as, x, R, hx => by simp only [List.set_cons_zero, SndAlt]; exact hx R
-  | i + 1, a :: as, x, R, hx => by simp only [List.set_cons_succ, SndAlt]; exact sndAlt_set_any C i as x R hx
+theorem sndAlt_set_any (C : Ctx) (ℓ : Bool) : ∀ (i : Nat) (as : List AS) (x : AS) (R : Option St), AnySnd C x → SndAltG C ℓ i (as.set i x) R
+  | _, [], _, _, _ => by simp [SndAltG]
+  | 0, a :: as, x, R, hx => by simp only [List.set_cons_zero, SndAltG]; exact hx ℓ R
+  | i + 1, a :: as, x, R, hx => by simp only [List.set_cons_succ, SndAltG]; exact sndAlt_set_any C ℓ i as x R hx
 
 theorem getD_ne_default {α} (l : List α) (i : Nat) (dflt x : α) (h : l.getD i dflt = x) (hne : x ≠ dflt) : l[i]? = some x := by
   unfold List.getD at h
@@ -265,41 +558,71 @@ theorem getD_ne_default {α} (l : List α) (i : Nat) (dflt x : α) (h : l.getD i
 
 /-! ### arrays -/
 
-theorem copyElems_snd (E : CopyEnv) (hnd : ∀ n, E.C.isDictName n = false) (ety : Ty) :
+theorem isDictNode_init (C : Ctx) (ty : Ty) (h : C.isDictTy ty = true) : C.isDictNode (C.init ty) = true := by
+  cases ty with
+  | prim p d => simp [Ctx.isDictTy] at h
+  | arr e => simp [Ctx.isDictTy] at h
+  | ref n =>
+    simp only [Ctx.isDictTy] at h
+    have hd := h
+    unfold Ctx.isDictName at hd
+    unfold Ctx.init initFuelA
+    simp only [initAS]
+    split at hd
+    · rename_i dn fs hfind
+      rw [hfind]
+      simpa [Ctx.isDictNode] using h
+    · simp at hd
+
+theorem anySnd_init_dict (C : Ctx) (ty : Ty) (h : C.isDictTy ty = true) : AnySnd C (C.init ty) :=
+  anySnd_dict C _ (isDictNode_init C ty h) (uc_init C ty)
+
+theorem copyElems_snd (E : CopyEnv) (ℓ : Bool) (ety : Ty) :
     ∀ (ses : List AS), (∀ s ∈ ses, ∀ x, Pres E.C x (copy0 E x s).1 (copy0 E x s).2) →
-    ∀ (des : List AS) (rs : List St) (i minLen : Nat), SndElems E.C des rs → SndElems E.C (copyElems E ety i minLen des ses).1 rs
+    ∀ (des : List AS) (rs : List St) (i minLen : Nat), SndElemsG E.C ℓ des rs → SndElemsG E.C ℓ (copyElems E ety i minLen des ses).1 rs
   | [], _, des, rs, i, minLen, h => by simpa [copyElems] using h
-  | s :: ses, ih, [], rs, i, minLen, h => by simp [copyElems, SndElems]
+  | s :: ses, ih, [], rs, i, minLen, h => by simp [copyElems, SndElemsG]
   | s :: ses, ih, d :: ds, rs, i, minLen, h => by
-    have hcs : ∀ a, E.C.canBeShared a = false := canBeShared_false E.C hnd
-    simp only [copyElems, hcs, Bool.and_false, Bool.false_eq_true, if_false]
-    simp only [SndElems] at h ⊢
-    refine ⟨?_, copyElems_snd E hnd ety ses (fun s' hs' x => ih s' (by simp [hs']) x) ds rs.tail (i + 1) minLen h.2⟩
+    simp only [copyElems]
+    simp only [SndElemsG] at h ⊢
+    refine ⟨?_, copyElems_snd E ℓ ety ses (fun s' hs' x => ih s' (by simp [hs']) x) ds rs.tail (i + 1) minLen h.2⟩
     by_cases hp : isPrimTy ety = true
     · simp only [hp, if_true]
       split
       · split
-        · simp [Snd]
+        · simp [SndG]
         · exact h.1
       · exact h.1
     · simp only [hp, Bool.false_eq_true, if_false]
       by_cases hi : i < minLen
       · simp only [hi, if_true]
-        exact (ih s (by simp) d).snd _ h.1
+        by_cases hss : E.C.canBeShared s = true
+        · simp only [hss, if_true]
+          split
+          · exact anySnd_shared E.C s hss ℓ _
+          · exact h.1
+        · simp only [hss, Bool.false_eq_true, if_false]
+          by_cases hdd : (E.C.isDictTy ety && E.C.canBeShared d) = true
+          · simp only [hdd, if_true]
+            simp only [Bool.and_eq_true] at hdd
+            exact (ih s (by simp) _).snd ℓ _ (anySnd_init_dict E.C ety hdd.1 ℓ _)
+          · simp only [hdd, Bool.false_eq_true, if_false]
+            exact (ih s (by simp) d).snd ℓ _ h.1
       · simp only [hi, if_false]
-        exact anySnd_setModRec _ _ _
+        split
+        · exact anySnd_setModRec _ _ ℓ _
+        · exact anySnd_setModRec _ _ ℓ _
 
-theorem copyElems_unmod (E : CopyEnv) (hnd : ∀ n, E.C.isDictName n = false) (ety : Ty) :
+theorem copyElems_unmod (E : CopyEnv) (ety : Ty) :
     ∀ (ses des : List AS) (i minLen : Nat), (copyElems E ety i minLen des ses).2.1 = false →
     (copyElems E ety i minLen des ses).1 = des
   | [], des, i, minLen, _ => by simp [copyElems]
   | s :: ses, [], i, minLen, _ => by simp [copyElems]
   | s :: ses, d :: ds, i, minLen, h => by
-    have hcs : ∀ a, E.C.canBeShared a = false := canBeShared_false E.C hnd
-    simp only [copyElems, hcs, Bool.and_false, Bool.false_eq_true, if_false] at h ⊢
+    simp only [copyElems] at h ⊢
     simp only [Bool.or_eq_false_iff] at h
     obtain ⟨h1, h2⟩ := h
-    have ih := copyElems_unmod E hnd ety ses ds (i + 1) minLen h2
+    have ih := copyElems_unmod E ety ses ds (i + 1) minLen h2
     rw [ih]
     congr 1
     by_cases hp : isPrimTy ety = true
@@ -310,26 +633,34 @@ theorem copyElems_unmod (E : CopyEnv) (hnd : ∀ n, E.C.isDictName n = false) (e
           simp [hne] at h1
         · rfl
       · rfl
-    · simp only [hp, Bool.false_eq_true, if_false] at h1
+    · simp only [hp, Bool.false_eq_true, if_false] at h1 ⊢
       by_cases hi : i < minLen
-      · simp [hi] at h1
-      · simp [hi] at h1
+      · simp only [hi, if_true] at h1 ⊢
+        by_cases hss : E.C.canBeShared s = true
+        · simp only [hss, if_true] at h1 ⊢
+          split
+          · rename_i hdf
+            simp [hdf] at h1
+          · rfl
+        · simp [hss] at h1
+      · simp only [hi, if_false] at h1
+        split at h1 <;> simp at h1
 
 /-- the element phase of `copy<Array>` as an operation on the (already resized) destination -/
-theorem copyElems_pres (E : CopyEnv) (hnd : ∀ n, E.C.isDictName n = false) (ety e : Ty) (ses : List AS)
+theorem copyElems_pres (E : CopyEnv) (ety e : Ty) (ses : List AS)
     (ih : ∀ s ∈ ses, ∀ x, Pres E.C x (copy0 E x s).1 (copy0 E x s).2) (des hid : List AS) (minLen : Nat) (isMod0 : Bool) :
     Pres E.C (.arr e des hid) (.arr e (copyElems E ety 0 minLen des ses).1 hid)
       ((copyElems E ety 0 minLen des ses).2.2.join
         (if (isMod0 || (copyElems E ety 0 minLen des ses).2.1) = true then Up.direct else Up.no)) := by
-  refine ⟨fun R h => ?_, fun hq hu => ?_, rfl⟩
-  · simp only [Snd] at h ⊢
-    exact copyElems_snd E hnd ety ses ih des _ 0 minLen h
+  refine ⟨fun ℓ R h => ?_, fun hq hu => ?_, rfl⟩
+  · simp only [SndG] at h ⊢
+    exact copyElems_snd E ℓ ety ses ih des _ 0 minLen h
   · obtain ⟨_, h2⟩ := join_eq_no _ _ hu
     have hm : (copyElems E ety 0 minLen des ses).2.1 = false := by
       cases hh : (copyElems E ety 0 minLen des ses).2.1 with
       | false => rfl
       | true => simp [hh] at h2
-    rw [copyElems_unmod E hnd ety ses des 0 minLen hm]
+    rw [copyElems_unmod E ety ses des 0 minLen hm]
     exact ⟨hq, fun _ h => h⟩
 
 /-! ### multimaps -/
@@ -403,15 +734,21 @@ theorem copyPairs_pres (E : CopyEnv) (kPrim vPrim : Bool) :
     have h3 := Pres.trans _ _ _ _ _ _ (Pres.trans _ _ _ _ _ _ hkey (hval _ _)) hrest'
     simpa [List.append_assoc] using h3
 
-theorem copy0_pres (E : CopyEnv) (hnd : ∀ n, E.C.isDictName n = false) :
+theorem copy0_pres (E : CopyEnv) (hun : UnshareOk E) :
     ∀ (src dst : AS), Pres E.C dst (copy0 E dst src).1 (copy0 E dst src).2
   | .struct sn sm sp sfr sfs, dst => by
     cases dst with
     | struct n m p fr dfs =>
       simp only [copy0]
-      have := copyFields_pres E hnd sfs (fun s hs x => copy0_pres E hnd s x) (fieldsOf E.C n) dfs 0 0 m p [] n fr sp (by simp) rfl
-        (by simp [optIndex])
-      simpa using this
+      by_cases hsh : (fr && E.C.isDictName n) = true
+      · simp only [hsh, if_true]
+        exact Pres.refl _ _ _
+      · simp only [hsh, Bool.false_eq_true, if_false]
+        have hns : ¬ (E.C.isDictName n = true ∧ fr = true) := by
+          intro h; simp [h.1, h.2] at hsh
+        have := copyFields_pres E hun sfs (fun s hs x => copy0_pres E hun s x) (fieldsOf E.C n) dfs 0 0 m p [] n fr sp hns
+          (by simp) rfl (by simp [optIndex])
+        simpa using this
     | _ => simp only [copy0]; exact Pres.refl _ _ _
   | .oneof sn st salts, dst => by
     cases dst with
@@ -423,7 +760,7 @@ theorem copy0_pres (E : CopyEnv) (hnd : ∀ n, E.C.isDictName n = false) :
         · simp only [ht, ne_eq, not_true_eq_false, if_false]
           exact Pres.refl _ _ _
         · simp only [ht, ne_eq, not_false_eq_true, if_true]
-          exact pres_direct E.C _ _ rfl (fun R => by simp [Snd])
+          exact pres_direct E.C _ _ rfl (fun ℓ R => by simp [SndG])
       · simp only [hst, if_false]
         split
         · -- a primitive alternative: dst.Set<Alt>(v)
@@ -435,7 +772,7 @@ theorem copy0_pres (E : CopyEnv) (hnd : ∀ n, E.C.isDictName n = false) :
             · exact Pres.refl _ _ _
           · exact Pres.refl _ _ _
         · -- a composite alternative: dst.SetType(typ); copy<T>(dst.alt, src.alt)
-          have hcp := copyAlt_pres E salts (fun s hs x => copy0_pres E hnd s x) (st - 1)
+          have hcp := copyAlt_pres E salts (fun s hs x => copy0_pres E hun s x) (st - 1)
           by_cases hts : t = st
           · subst hts
             simp only [ne_eq, not_true_eq_false, if_false]
@@ -447,9 +784,9 @@ theorem copy0_pres (E : CopyEnv) (hnd : ∀ n, E.C.isDictName n = false) :
                 (Up.direct.join (copyAlt E (st - 1) (setNth dalts (st - 1) (setModRec y)) salts).2) := by
               intro y
               have h1 : Pres E.C (.oneof n t dalts) (.oneof n st (setNth dalts (st - 1) (setModRec y))) .direct := by
-                refine pres_direct E.C _ _ rfl (fun R => ?_)
-                simp only [Snd]
-                exact Or.inr (sndAlt_set_any E.C (st - 1) dalts _ _ (anySnd_setModRec _ _))
+                refine pres_direct E.C _ _ rfl (fun ℓ R => ?_)
+                simp only [SndG]
+                exact Or.inr (sndAlt_set_any E.C ℓ (st - 1) dalts _ _ (anySnd_setModRec _ _))
               have h2 := hcp (setNth dalts (st - 1) (setModRec y)) [] n st
               simpa using Pres.trans _ _ _ _ _ _ h1 h2
             exact key _
@@ -458,14 +795,14 @@ theorem copy0_pres (E : CopyEnv) (hnd : ∀ n, E.C.isDictName n = false) :
     cases dst with
     | arr e des dhid =>
       simp only [copy0]
-      have ih : ∀ s ∈ ses, ∀ x, Pres E.C x (copy0 E x s).1 (copy0 E x s).2 := fun s hs x => copy0_pres E hnd s x
+      have ih : ∀ s ∈ ses, ∀ x, Pres E.C x (copy0 E x s).1 (copy0 E x s).2 := fun s hs x => copy0_pres E hun s x
       by_cases hl : des.length = ses.length
       · simp only [hl, ne_eq, not_true_eq_false, if_false]
-        have h2 := copyElems_pres E hnd e e ses ih des dhid (min ses.length ses.length) false
+        have h2 := copyElems_pres E e e ses ih des dhid (min ses.length ses.length) false
         simpa [join_no_left, hl] using h2
       · simp only [hl, ne_eq, not_false_eq_true, if_true]
         have h1 := arrEnsureLen_pres E.C e des dhid ses.length
-        have h2 := copyElems_pres E hnd e e ses ih (arrEnsureLen E.C e des dhid ses.length).1
+        have h2 := copyElems_pres E e e ses ih (arrEnsureLen E.C e des dhid ses.length).1
           (arrEnsureLen E.C e des dhid ses.length).2.1 (min des.length ses.length) true
         have h3 := Pres.trans _ _ _ _ _ _ h1 h2
         simpa [join_assoc] using h3
@@ -477,7 +814,7 @@ theorem copy0_pres (E : CopyEnv) (hnd : ∀ n, E.C.isDictName n = false) :
       have ih : ∀ s ∈ sps, (∀ x, Pres E.C x (copy0 E x s.1).1 (copy0 E x s.1).2) ∧
           (∀ x, Pres E.C x (copy0 E x s.2).1 (copy0 E x s.2).2) :=
         fun s hs => match s, hs with
-          | (a, b), hs => ⟨fun x => copy0_pres E hnd a x, fun x => copy0_pres E hnd b x⟩
+          | (a, b), hs => ⟨fun x => copy0_pres E hun a x, fun x => copy0_pres E hun b x⟩
       by_cases hl : dps.length = sps.length
       · simp only [hl, ne_eq, not_true_eq_false, if_false]
         have h2 := copyPairs_pres E (isPrimTy (mmapTys E.C n).1) (isPrimTy (mmapTys E.C n).2) sps ih dps [] dhid 0 k v ml n rfl
@@ -503,79 +840,130 @@ decreasing_by
 
 /-! ## CopyFrom as a public call -/
 
-/-- the schema has no dictionary struct -/
-def Ctx.NoDict (C : Ctx) : Prop := ∀ n, C.isDictName n = false
+theorem copyLvl_pres (C : Ctx) : ∀ (k : Nat) (dst src : AS), Pres C dst (copyLvl C k dst src).1 (copyLvl C k dst src).2
+  | 0, dst, src => copy0_pres { C := C, unshare := fun _ sh => (sh, .no) } (fun _ _ _ _ => Pres.refl _ _ _) src dst
+  | k + 1, dst, src => copy0_pres { C := C, unshare := unshareWith C (copyLvl C k) }
+      (fun ty sh hptr hsh => unshare_pres C (copyLvl C k) (copyLvl_pres C k) ty sh hptr hsh) src dst
 
-def Ctx.noDictB (C : Ctx) : Bool :=
-  C.σ.defs.all (fun d => match d.2 with | .struct (some _) _ => false | _ => true)
+/-- `copy<T>(dst, src)`: any schema, any destination and source state -/
+theorem copy_pres (C : Ctx) (dst src : AS) : Pres C dst (C.copy dst src).1 (C.copy dst src).2 :=
+  copyLvl_pres C _ dst src
 
-theorem Ctx.noDict_of_b (C : Ctx) (h : C.noDictB = true) : C.NoDict := by
-  intro n
-  simp only [Ctx.noDictB, List.all_eq_true] at h
-  unfold Ctx.isDictName Schema.find
-  cases hf : C.σ.defs.find? (·.1 = n) with
-  | none => rfl
-  | some d =>
-    have hm := h d (List.mem_of_find?_eq_some hf)
-    simp only [Option.map_some]
-    split
-    · rename_i heq
-      simp only [Option.some.injEq] at heq
-      rw [heq] at hm
-      simp at hm
-    · rfl
-
-theorem copyLvl_pres (C : Ctx) (hnd : C.NoDict) : ∀ (k : Nat) (dst src : AS), Pres C dst (copyLvl C k dst src).1 (copyLvl C k dst src).2
-  | 0, dst, src => copy0_pres { C := C, unshare := fun _ sh => (sh, .no) } hnd src dst
-  | k + 1, dst, src => copy0_pres { C := C, unshare := fun ty sh =>
-      let (o, u) := copyLvl C k (C.init ty) sh
-      (setUnmodRec o, u) } hnd src dst
-
-theorem copy_pres (C : Ctx) (hnd : C.NoDict) (dst src : AS) : Pres C dst (C.copy dst src).1 (C.copy dst src).2 :=
-  copyLvl_pres C hnd _ dst src
-
-/-- `CopyFrom(src)` on a struct, a oneof or a multimap (any source state, any destination state) -/
-theorem copyFrom_pres (C : Ctx) (hnd : C.NoDict) (src w w' : AS) (u : Up) (h : applyOp C (.copyFrom src) w = .ok (w', u)) :
+/-- `CopyFrom(src)` on a struct, a oneof or a multimap (any schema, any source state, any destination state) -/
+theorem copyFrom_pres (C : Ctx) (src w w' : AS) (u : Up) (h : applyOp C (.copyFrom src) w = .ok (w', u)) :
     Pres C w w' u := by
   cases w with
   | struct n m p fr fs =>
     simp only [applyOp, Except.ok.injEq] at h
-    have := copy_pres C hnd (.struct n m p fr fs) src; rw [h] at this; exact this
+    have := copy_pres C (.struct n m p fr fs) src; rw [h] at this; exact this
   | oneof n t as =>
     simp only [applyOp, Except.ok.injEq] at h
-    have := copy_pres C hnd (.oneof n t as) src; rw [h] at this; exact this
+    have := copy_pres C (.oneof n t as) src; rw [h] at this; exact this
   | mmap n ps hid k v ml =>
     simp only [applyOp, Except.ok.injEq] at h
-    have := copy_pres C hnd (.mmap n ps hid k v ml) src; rw [h] at this; exact this
+    have := copy_pres C (.mmap n ps hid k v ml) src; rw [h] at this; exact this
   | prim v => simp [applyOp] at h
   | nil => simp [applyOp] at h
   | arr e es hid => simp [applyOp] at h
 
-/-- the calls covered by the preservation proof: everything except CopyFrom, and CopyFrom too when
-    the schema has no dictionary struct -/
-def OpOk (C : Ctx) (op : Op) : Prop := op.isCopy = false ∨ C.NoDict
+/-! ## Set<F>(v) of a dictionary-struct field -/
 
-theorem applyOp_pres' (C : Ctx) (op : Op) (hb : OpOk C op) (w w' : AS) (u : Up) (hnd : C.isDictNode w = false)
-    (h : applyOp C op w = .ok (w', u)) : Pres C w w' u := by
-  by_cases hc : op.isCopy = false
-  · exact applyOp_pres C op hc w w' u hnd h
-  · have hN : C.NoDict := by
-      rcases hb with hb | hb
-      · exact absurd hb hc
-      · exact hb
-    cases op with
-    | copyFrom src => exact copyFrom_pres C hN src w w' u h
-    | _ => simp [Op.isCopy] at hc
+theorem sndFields_uc_at (C : Ctx) (ℓ : Bool) : ∀ (fds : List Field) (idx oi m p : Nat) (known : Bool) (rp : Nat)
+    (as : List AS) (rfs : List St) (i : Nat) (c : AS), as[i]? = some c → SndFieldsG C ℓ fds idx oi m p known rp as rfs → UC C c
+  | _, _, _, _, _, _, _, [], _, _, _, h, _ => by simp at h
+  | fds, idx, oi, m, p, known, rp, a :: as, rfs, 0, c, hi, h => by
+    simp only [List.getElem?_cons_zero, Option.some.injEq] at hi
+    subst hi
+    exact sndFields_uc_head C ℓ fds idx oi m p known rp a as rfs h
+  | fds, idx, oi, m, p, known, rp, a :: as, rfs, i + 1, c, hi, h => by
+    simp only [List.getElem?_cons_succ] at hi
+    simp only [SndFieldsG] at h
+    exact sndFields_uc_at C ℓ fds.tail (idx + 1) _ m p known rp as rfs.tail i c hi h.2.2
 
-theorem call_snd' (C : Ctx) (path : List Step) (op : Op) (hb : OpOk C op) (w w' : AS) (R : Option St)
-    (hnd : C.isDictNode w = false) (h : call C path op w = .ok w') (hs : Snd C w R) : Snd C w' R := by
-  unfold call at h
-  cases hr : applyAt C (applyOp C op) path w with
-  | error e => simp [hr, Except.map] at h
-  | ok r =>
-    obtain ⟨w1, u⟩ := r
-    simp only [hr, Except.map, Except.ok.injEq] at h
-    subst h
-    exact (applyAt_pres C (applyOp C op) (fun a a' ua hnd ha => applyOp_pres' C op hb a a' ua hnd ha) path w w1 u hnd hr).snd R hs
+/-- every field value of a struct with sound marks (present or not, marked or not) has up-closed marks -/
+theorem uc_field (C : Ctx) (ℓ : Bool) (n : String) (m p : Nat) (fr : Bool) (fs : List AS) (R : Option St) (i : Nat) (c : AS)
+    (hns : ¬ (C.isDictName n = true ∧ fr = true)) (hc : fs[i]? = some c) (h : SndG C ℓ (.struct n m p fr fs) R) : UC C c := by
+  simp only [SndG] at h
+  rcases h with ⟨hd, hfr | h⟩ | ⟨hd, h⟩
+  · exact absurd ⟨hd, hfr⟩ hns
+  · exact sndFields_uc_at C true _ _ _ _ _ _ _ _ _ i c hc h
+  · exact sndFields_uc_at C ℓ _ _ _ _ _ _ _ _ _ i c hc h
+
+/-- `pres_struct_mark` when the new value is only known to be sound if the old value was up-closed (which
+    it is, by the invariant) -/
+theorem pres_struct_mark' (C : Ctx) (n : String) (m p p' : Nat) (fr : Bool) (fs : List AS) (i : Nat) (c c' : AS)
+    (hc : fs[i]? = some c) (hns : ¬ (C.isDictName n = true ∧ fr = true))
+    (hp : ∀ o, (o ≠ optIndex (fieldsOf C n) i ∨ fdOpt ((fieldsOf C n).drop i) = false) → p'.testBit o = p.testBit o)
+    (hc' : UC C c → AnySnd C c') :
+    Pres C (.struct n m p fr fs) (.struct n (structRecv m i .direct).1 p' fr (fs.set i c')) (structRecv m i .direct).2 := by
+  refine ⟨fun ℓ R h => ?_, fun hq hno => ?_, rfl⟩
+  · have huc := uc_field C ℓ n m p fr fs R i c hns hc h
+    exact (pres_struct_mark C n m p p' fr fs i c c' hc hns hp (fun _ => hc' huc) (fun _ => hc' huc true none)).snd ℓ R h
+  · simp only [Quiet] at hq
+    rcases hq with hq | hq
+    · exact absurd hq hns
+    obtain ⟨hm, _⟩ := hq
+    subst hm
+    have := structRecv_up_no 0 i .direct hno (Nat.zero_testBit i)
+    simp at this
+
+theorem setObj_pres (C : Ctx) (i : Nat) (v : AS) (w w' : AS) (u : Up) (hnd : C.isDictNode w = false)
+    (h : applyOp C (.setObj i v) w = .ok (w', u)) : Pres C w w' u := by
+  cases w with
+  | struct n m p fr fs =>
+    simp only [Ctx.isDictNode] at hnd
+    have hns := not_shared_of_not_dict C n fr hnd
+    simp only [applyOp] at h
+    split at h
+    · rename_i fd cur hfd hfs
+      have hopt := fdOpt_drop _ i fd hfd
+      have hpb : ∀ o, (o ≠ optIndex (fieldsOf C n) i ∨ fdOpt ((fieldsOf C n).drop i) = false) →
+          (if fd.optional = true then p ||| 2 ^ optIdx (fieldsOf C n) i else p).testBit o = p.testBit o := by
+        intro o ho
+        by_cases hfo : fd.optional = true
+        · simp only [hfo, if_true, optIdx]
+          rcases ho with ho | ho
+          · exact or_two_pow_testBit p _ o ho
+          · rw [hopt, hfo] at ho; simp at ho
+        · simp [hfo]
+      have hset : (structRecv m i .direct).1.testBit i = true := structRecv_set m i .direct (by simp)
+      split at h
+      · simp at h
+      · rename_i hdty
+        have hdty : C.isDictTy fd.ty = true := by simpa using hdty
+        by_cases hsh : C.canBeShared v = true
+        · -- a value that can be shared
+          simp only [hsh, if_true] at h
+          split at h
+          · simp only [Except.ok.injEq, Prod.mk.injEq] at h
+            obtain ⟨rfl, rfl⟩ := h
+            exact pres_struct_mark C n m p _ fr fs i cur v hfs hns hpb
+              (fun _ => anySnd_shared C v hsh) (fun _ => uc_shared C v hsh)
+          · simp only [Except.ok.injEq, Prod.mk.injEq] at h
+            obtain ⟨rfl, rfl⟩ := h
+            exact Pres.refl C _ _
+        · -- an owned value: copied into the (unshared) current one
+          simp only [hsh, if_false, Bool.false_eq_true] at h
+          by_cases hcs : C.canBeShared cur = true
+          · simp only [hcs, if_true, structRecv_again _ i _ hset, join_no_no] at h
+            split at h
+            · simp at h
+            · rename_i hdict
+              simp only [Except.ok.injEq, Prod.mk.injEq] at h
+              obtain ⟨rfl, rfl⟩ := h
+              refine pres_struct_mark' C n m p _ fr fs i cur _ hfs hns hpb (fun huc => ?_)
+              have h1 := unshare_pres C C.copy (copy_pres C) fd.ty cur (isPtrTy_of_isDictTy C fd.ty hdty) hcs
+              have h2 := copy_pres C (C.unshare fd.ty cur).1 v
+              exact anySnd_dict C _ (by simpa using hdict) (h2.snd true none (h1.snd true none huc))
+          · simp only [hcs, if_false, Bool.false_eq_true, structRecv_again _ i _ hset, join_no_no] at h
+            split at h
+            · simp at h
+            · rename_i hdict
+              simp only [Except.ok.injEq, Prod.mk.injEq] at h
+              obtain ⟨rfl, rfl⟩ := h
+              refine pres_struct_mark' C n m p _ fr fs i cur _ hfs hns hpb (fun huc => ?_)
+              exact anySnd_dict C _ (by simpa using hdict) ((copy_pres C cur v).snd true none huc)
+    · simp at h
+  | _ => simp [applyOp] at h
 
 end Stef.Api
